@@ -12,7 +12,7 @@ from geometer import Line, LineCollection, Plane, PlaneCollection, Point, PointC
 
 from .. import common as C
 from .. import exact as X
-from ..runner import Checker, Fail, Law, Skip, call, mismatch
+from ..runner import Checker, Fail, HarnessError, Law, Skip, call, mismatch
 
 RULE = (
     "Hypothesis draws integer / Gaussian-integer homogeneous coordinates (|c| <= 9 quick, <= 99 thorough), finite and "
@@ -502,6 +502,76 @@ def run_wide(c):
     return ck.result()
 
 
+
+# ------------------------------------------------------------------------------------------- single precision
+@st.composite
+def sp_case(draw, tier="quick"):
+    kind = draw(st.sampled_from(["join_pp2", "meet_ll2", "join_pp3", "join_ppp3", "meet_ee3", "meet_eee3"]))
+    dim, op, nb = KINDS[kind]
+    cplx = draw(st.booleans())
+    vs = C.cvec(dim + 1, 4) if cplx else C.hpoint(dim, 9)
+    npos = draw(st.sampled_from([1, 1, 3]))
+    return {"kind": kind, "cplx": cplx, "elems": [[draw(vs) for _ in range(nb)] for _ in range(npos)], "coefs": [[draw(st.integers(-3, 3)), draw(st.sampled_from([1, -1, 2]))] for _ in range(npos)],
+            "mixed": draw(st.sampled_from([False, False, True]))}
+
+
+def run_sp(case):
+    """every argument stored in single precision (float32 / complex64; small integer coordinates, so every product is exact in
+    that type): the result is the exact span / intersection and is incident with the arguments"""
+    kind, cplx = case["kind"], case["cplx"]
+    if kind not in KINDS:
+        raise Skip("malformed")
+    dim, op, nb = KINDS[kind]
+    n = dim + 1
+    per_pos = []
+    for el, co in zip(case["elems"], case["coefs"]):
+        if len(el) != nb:
+            raise Skip("malformed")
+        args = args_exact(kind, [C.exact_vec(v, cplx) for v in el], [Fraction(x) for x in co])
+        if any(a[0] not in "PH" for a in args):
+            raise Skip("line argument")
+        r = exact_result(kind, args, n)
+        if r is None:
+            raise Skip("not in general position")
+        per_pos.append((args, r))
+    npos = len(per_pos)
+    nargs = len(per_pos[0][0])
+    dt = np.complex64 if cplx else np.float32
+    objs = []
+    for k in range(nargs):
+        arr = np.array([C.to_c(per_pos[i][0][k][1]) for i in range(npos)])
+        wide = case["mixed"] and k == 0
+        arr = (arr if cplx else np.real(arr)).astype((np.complex128 if cplx else np.float64) if wide else dt)
+        tag = per_pos[0][0][k][0]
+        if npos == 1:
+            o = (Point if tag == "P" else (Line if n == 3 else Plane))(arr[0])
+        else:
+            o = (PointCollection if tag == "P" else (LineCollection if n == 3 else PlaneCollection))(arr)
+        if o.array.dtype != arr.dtype:
+            raise HarnessError(f"dtype {o.array.dtype} instead of {arr.dtype}")
+        objs.append(o)
+    tgt = np.array([target_array(r) for _, r in per_pos])
+    naxes = tgt.ndim - 1
+    if npos == 1:
+        tgt = tgt[0]
+    site = f"single-precision:{kind}:{'complex64' if cplx else 'float32'}" + (":one-double-argument" if case["mixed"] else "")
+    res, f = call(site, (join if op == "join" else meet), *objs)
+    if f:
+        return [f]
+    ck = Checker()
+    if not ck.check(res.array.shape == tgt.shape, site + ":shape", (res.array.shape, tgt.shape)):
+        return ck.result()
+    ck.check(C.peq_all(res.array, tgt, naxes, 1e-5), site + ":value", C.short((np.asarray(res.array).tolist(), tgt.tolist())))
+    if op == "join" or isinstance(res, G.point.PointTensor):
+        for k, o in enumerate(objs):
+            cc, f = call(site + ":contains", (res.contains if op == "join" else o.contains), (o if op == "join" else res))
+            if f:
+                ck.add(f)
+            else:
+                ck.check(np.all(cc), site + ":incidence", k)
+    return ck.result()
+
+
 LAWS = [
     Law(
         name=k,
@@ -515,6 +585,8 @@ LAWS = [
     )
     for k in KINDS
 ] + [
+    Law("single_precision", lambda tier: sp_case(tier), run_sp, lambda c: True, lambda c: [c["kind"], "complex64" if c["cplx"] else "float32"] + (["one-double-argument"] if c["mixed"] else []) + (["collection"] if len(c["elems"]) > 1 else []),
+        {"quick": 600, "thorough": 10000}, "all arguments in float32 / complex64 (small integer coordinates): exact span / intersection, incidence", shard=300, mandatory=("complex64", "float32")),
     Law("wide_range_exact", lambda tier: wide_case(tier), run_wide, lambda c: True, lambda c: [c["op"], f"spread=2^{c['ka'] + c['kb']}"], {"quick": 300, "thorough": 4000},
         "join / meet in the plane on exactly representable data whose result spans ~50 binary orders of magnitude: exact proportionality to the cross product"),
 ] + [
